@@ -48,6 +48,20 @@ CHECKS.update({
    text='Complete over the finite domain: for every built-in calendar and every day 1970-01-01..2200-12-31 z3 decides table(d) <=> rules(d) on weekdays (both directions for tgt nyc fed ldn stk osl zur; rule => table for every translatable rule of tro tyo syd wlg mum), fed = nyc minus Good Friday, all/bus empty, week masks, every documented name resolves, and business day <=> publication date over each of the nine fixing histories. The table and week mask are not read from the data files but produced by executing the real constructor (name wiring, date parsing, any post-processing) in mirsym, so a stale map entry, a filter or a changed line all show up.',
    note='Trusted: transcription of pandas Holiday semantics in tables/rules.py; computus. Custom observance functions (tyo equinoxes, wlg Matariki) are outside the one-directional check. Finding fixed: fed wired to nyc (known_findings.json).'),
 })
+CHECKS.update({
+ 'C04': dict(engine='mirsym', technique='symbolic execution of the MIR of the provided DateRoll methods (roll and the eight roll_* bodies) with Self = a model calendar whose required methods are uninterpreted predicates of the day; z3 validity query per path against a declarative first-eligible-day oracle; native replay on an explicit calendar built from the model',
+   category='model_checking', design_ref='DESIGN.md §3.4',
+   text='For each of the 5 modifiers x 2 settlement flags z3 proves on every feasible path, for a symbolic date and ARBITRARY business-day and settlement predicates (every week mask, holiday set and settlement calendar at once), that the result is the first eligible day on/after (F), on/before (P), the modified variants switch direction exactly when the month changes, Act is the identity, eligible inputs are fixed points and adjusting twice equals adjusting once. Bound: runs of ineligible days inside the touched window are at most 3 (quick) / 5 (thorough) long.',
+   note='month() of a symbolic date is an uninterpreted month index with the facts the code can observe (monotone, at most one boundary in the window); the real Cal/UnionCal/NamedCal predicates are tied to the model by C06, chrono month arithmetic by C08.'),
+ 'C05': dict(engine='mirsym', technique='symbolic execution of the MIR of add_bus_days / lag / bus_date_range / add_days on the model calendar; z3 validity query per path against a declarative counting oracle with a universally quantified witness; native replay',
+   category='model_checking', design_ref='DESIGN.md §3.5',
+   text='On arbitrary calendar predicates and a symbolic start date z3 proves: add_bus_days(n) returns the business day with exactly |n| business days counted from the start (then moved on in the direction of n to a settleable business day when settlement is enforced), Err exactly for a non-business start, the inverse law, lag consistent with the count for business and non-business starts, bus_date_range = exactly the business days of the range in order, add_days = adjust(date+n); n in -3..3 with gap<=3 (quick; more in thorough), the 8-bit extremes on gap-free calendars, and no abort anywhere in the i8 range.',
+   note='Larger |n| with holidays in between follows by induction on the loop counter (stated, not solver-checked). For |n|>=2 the week-mask predicate is fixed to true (same business-day predicate space). Finding fixed: lag settlement direction (known_findings.json).'),
+ 'C20': dict(engine='kani+mirsym', technique='panic reachability: Kani/CBMC harnesses over the compiled code for date arithmetic over the whole i8 / month-offset range; mirsym path exploration where every leaf must be Ok (shape invariant proved by z3) or Err and any Panic leaf inside the documented input range is a violation; native replay',
+   category='model_checking', design_ref='DESIGN.md §3.20',
+   text='PARTIAL. Decided: add_days / add_months / get_roll never abort for every i8 day count, every month offset landing in 1970-2200, roll days 1-31, all modifiers (K, full range; add_bus_days and lag over the full i8 range in thorough; M: every i8 count on gap-free calendars, n in -2..2 on arbitrary calendars); roll never aborts; Dual/Dual2::try_new (vars 0..3 with duplicates, dual 0..4, dual2 0..10), Ccy/FXPair::try_new, Cal::new with week masks 0-6 return Ok with the shape invariant or Err on every path. NOT decided: arbitrary JSON texts (the serde_json parser and derive visitors are outside reach) - stated in DESIGN §4.',
+   note='FXRates/NamedCal/PPSpline constructors are exercised for panics inside C09/C06/C15. Finding fixed: add_days(i8::MIN).'),
+})
 NA_REASON = 'no registered check in this revision yet (work in progress; planned solver-based check described in DESIGN.md §3) — not claimed'
 
 checks = []
@@ -76,7 +90,7 @@ m = {
            'add_only': True},
  'engines': [
    {'name': 'kani', 'path': '/verif/kani', 'serves_properties': ['C08', 'C11', 'C20', 'C04'], 'kind_free_text': 'Kani 0.68 / CBMC 6.11 proof harnesses over the compiled crate (path dependency on /repo), native replay binary in the same crate'},
-   {'name': 'mirsym', 'path': '/verif/mirsym', 'serves_properties': ['C01','C02','C03','C17','C18','C19'], 'kind_free_text': 'symbolic executor for rustc MIR (regenerated from /repo on every run) discharging path obligations with z3'},
+   {'name': 'mirsym', 'path': '/verif/mirsym', 'serves_properties': ['C01','C02','C03','C04','C05','C17','C18','C19','C20'], 'kind_free_text': 'symbolic executor for rustc MIR (regenerated from /repo on every run) discharging path obligations with z3'},
    {'name': 'tables', 'path': '/verif/tables', 'serves_properties': ['C07'], 'kind_free_text': 'SMT encoding of the static holiday tables against the published rules over a symbolic day'},
  ],
  'checks': checks,
